@@ -60,7 +60,8 @@ Ltac fin :=
 Lemma L_step l w w' : L w -> step l w = Some w' -> L w'.
 Proof.
   intros HL Hs q. pose proof (HL q) as Hq.
-  destruct l as [p]; pose proof (HL p) as Hp; unfold Lp in Hp, Hq |- *.
+  destruct l as [p|]; [|cbn in Hs; injection Hs as <-; exact Hq].
+  pose proof (HL p) as Hp; unfold Lp in Hp, Hq |- *.
   step_cases Hs p w; fin; split_step Hs w; try discriminate Hs; injection Hs as <-; fin; rewrite ?Es in *; fin;
       (destruct (Nat.eq_dec q p) as [E|Nq];
        [ subst q; rewrite ?Es in *; rewrite ?upd_same; fin; rewrite ?in_snoc;
@@ -101,7 +102,8 @@ Qed.
    generic facts about steps *)
 Lemma pc_mono_step l w w' q : L w -> step l w = Some w' -> pc (procs w q) <= pc (procs w' q).
 Proof.
-  intros HL Hs. destruct l as [p]; pose proof (HL p) as Hp; unfold Lp in Hp.
+  intros HL Hs. destruct l as [p|]; [|cbn in Hs; injection Hs as <-; lia].
+  pose proof (HL p) as Hp; unfold Lp in Hp.
   step_cases Hs p w; fin; split_step Hs w; try discriminate Hs; injection Hs as <-; fin;
       (destruct (Nat.eq_dec q p) as [E|Nq]; [subst q; rewrite upd_same, ?Es; fin; lia | rewrite upd_other by exact Nq; lia]).
 Qed.
@@ -117,17 +119,18 @@ Qed.
 (* a step changes the process record of the moving process only *)
 Lemma step_other l w w' r : step l w = Some w' -> label_pid l <> r -> procs w' r = procs w r.
 Proof.
-  intros Hs Hn. destruct l as [p]; cbn [label_pid] in Hn.
+  intros Hs Hn. destruct l as [p|]; [|cbn in Hs; injection Hs as <-; reflexivity]. cbn [label_pid] in Hn.
   step_cases Hs p w; fin; split_step Hs w; try discriminate Hs; injection Hs as <-; fin; apply upd_other; congruence.
 Qed.
 
 (* a refused process never moves again *)
 Lemma refused_stable_step l w w' r : L w -> refused (procs w r) = true -> step l w = Some w' -> refused (procs w' r) = true.
 Proof.
-  intros HL Rf Hs. destruct (Nat.eq_dec (label_pid l) r) as [E|N].
+  intros HL Rf Hs. destruct l as [p|]; [|cbn in Hs; injection Hs as <-; exact Rf].
+  destruct (Nat.eq_dec p r) as [E|N].
   - exfalso. pose proof (HL r) as (_ & _ & _ & _ & Hrf & _). destruct (Hrf Rf) as (Hend & _). unfold pcEnd in Hend.
-    destruct l as [p]; cbn [label_pid] in E; subst p; unfold step, cur in Hs; rewrite Hend in Hs; cbn in Hs; discriminate.
-  - now rewrite (step_other _ _ _ _ Hs N).
+    subst p; unfold step, cur in Hs; rewrite Hend in Hs; cbn in Hs; discriminate.
+  - now rewrite (step_other (Do p) _ _ _ Hs N).
 Qed.
 Lemma refused_stable_run sched : forall w w' r, L w -> refused (procs w r) = true -> run sched w = Some w' -> refused (procs w' r) = true.
 Proof.
@@ -141,10 +144,11 @@ Qed.
 Lemma pass_probe l w w' r : step l w = Some w' -> pc (procs w r) <= pcProbe -> pcProbe < pc (procs w' r) ->
   l = Do r /\ pc (procs w r) = pcProbe.
 Proof.
-  intros Hs H1 H2. destruct (Nat.eq_dec (label_pid l) r) as [E|N].
-  - destruct l as [p]; cbn [label_pid] in E; subst p.
+  intros Hs H1 H2. destruct l as [p|]; [|cbn in Hs; injection Hs as <-; lia].
+  destruct (Nat.eq_dec p r) as [E|N].
+  - subst p.
     split; [reflexivity|]. step_cases Hs r w; fin; try lia; split_step Hs w; try discriminate Hs; injection Hs as <-; fin; rewrite upd_same in H2; rewrite ?Es in *; fin; lia.
-  - rewrite (step_other _ _ _ _ Hs N) in H2. lia.
+  - rewrite (step_other (Do p) _ _ _ Hs N) in H2. lia.
 Qed.
 
 (* ---------------------------------------------------------------------------------------------
@@ -167,7 +171,8 @@ Proof. intros S Lq. unfold answering. now rewrite S. Qed.
 
 Lemma I_step l w w' : L w -> I w -> step l w = Some w' -> I w'.
 Proof.
-  intros HL (Ia & Ib & Ic & Id & Ie & If_) Hs. destruct l as [p0].
+  intros HL HI Hs. destruct l as [p0|]; [|cbn in Hs; injection Hs as <-; exact HI].
+  destruct HI as (Ia & Ib & Ic & Id & Ie & If_).
   pose proof (HL p0) as Hp. unfold Lp in Hp.
   pose proof (Ia p0) as Ia0. pose proof (Ib p0) as Ib0. pose proof (Ic p0) as Ic0. pose proof (Ie p0) as Ie0. pose proof (If_ p0) as If0.
   step_cases Hs p0 w; fin; rewrite ?Es in *; fin; split_step Hs w; try discriminate Hs;
@@ -274,7 +279,8 @@ Lemma owner_step q l w w' : L w -> I w -> owner (procs w q) = true -> step l w =
 Proof.
   intros HL (Ia & Ib & Ic & Id & Ie & If_) Oq Hs. apply owner_spec in Oq. destruct Oq as [Oq _].
   destruct (Ic q Oq) as [S1 S2]. pose proof (answering_of w q S1 S2) as An.
-  destruct l as [p0]. destruct (Nat.eq_dec p0 q) as [E|N].
+  destruct l as [p0|]; [|cbn in Hs; injection Hs as <-; split; [reflexivity|split; [tauto|intros; discriminate]]].
+  destruct (Nat.eq_dec p0 q) as [E|N].
   - subst p0. step_cases Hs q w; fin; try lia; split_step Hs w; try discriminate Hs; injection Hs as <-; fin;
       (split; [reflexivity|]); (split; [intros r Hr; rewrite ?in_snoc; intuition congruence|]);
       intros r Hr _ E; injection E as ->; contradiction.
@@ -347,4 +353,21 @@ Proof. vm_compute. reflexivity. Qed.
 Example late_unlink_repaired :
   exists w, run (does 0 14 ++ does 1 11 ++ does 0 2 ++ does 2 4) (init Absent) = Some w /\
             outcomes 3 w = [(1, true, true); (0, true, true); (2, false, false)] /\ sock w = Bound 1 /\ answering w = true.
+Proof. eexists. split; [vm_compute; reflexivity|]. vm_compute. auto. Qed.
+
+(* ---------------------------------------------------------------------------------------------
+   F16b: a save of the DAG definition between one start's lock and its bind *)
+(* before F16b (lock on the definition file): the save hands the second start a fresh unlocked inode - both execute *)
+Example save_race_refuted_before_F16b :
+  exists w, run_a924 (does 0 4 ++ [Save] ++ does 1 11 ++ does 0 7) (init Absent) = Some w /\
+            active (procs w 0) = true /\ active (procs w 1) = true /\ mem 0 (execd w) = true /\ mem 1 (execd w) = true /\
+            sock w = Bound 0 /\ listening w 1 = true.
+Proof. eexists. split; [vm_compute; reflexivity|]. vm_compute. repeat split. Qed.
+(* since F16b (lock on a file of its own): the same schedule is not an execution - the second Lock is not enabled ... *)
+Example save_race_not_executable : run (does 0 4 ++ [Save] ++ does 1 3) (init Absent) = None.
+Proof. vm_compute. reflexivity. Qed.
+(* ... the second start waits for the first's bind and is refused *)
+Example save_race_repaired :
+  exists w, run (does 0 4 ++ [Save] ++ does 1 2 ++ does 0 7 ++ does 1 2 ++ does 0 5) (init Absent) = Some w /\
+            outcomes 2 w = [(1, true, true); (2, false, false)] /\ hist w = [0] /\ execd w = [0].
 Proof. eexists. split; [vm_compute; reflexivity|]. vm_compute. auto. Qed.
